@@ -106,5 +106,5 @@ def run(tier, seed):
     V.write_evidence('C12', tier, seed, cov, time.time() - t0, len(ver.violations),
                      assumptions=['cell probabilities of the uniform laws are exact (1/cells); binning done in f64 from the returned coordinates', 'NaN would need two specific words at once and is outside the quantifier'])
     if len(per) < 8:
-        return 2
+        return 1 if rc == 1 else 2  # a violation outranks a missed coverage floor
     return rc
